@@ -16,6 +16,9 @@
 //!   `A <opts> <hex>`  parse one AIGER input -> `OK <field-by-field dump>` | `DIAG` | `PANIC ..`
 //!        (compared with the extracted model parser of coq/IO/AigerParse.v)
 //!   `D <opts> <family> <hex seed> <rseed>`  mutations of one AIGER seed, one `A` line each
+//!   `N <opts> <hex>`  parse one DIMACS input -> `OK <dump>` | `DIAG` | `PANIC ..`
+//!        (compared with the extracted model of coq/IO/DimacsParse.v when it is a `p cnf` file)
+//!   `M <opts> <family> <hex seed> <rseed>`  mutations of one DIMACS seed, one `N` line each
 //!   `V <inputs> <d1> <d2>`  binary AIGER file with one AND gate whose deltas are
 //!        d1, d2 (7-bit varint codec) -> `<hex of the two varints> <in1> <in2>` | `.. DIAG`
 //!
@@ -721,6 +724,64 @@ fn run_aiger_mut(line: &str, out: &mut dyn FnMut(String)) {
     out(format!("{line} -> n={n} skipped={skipped}"));
 }
 
+/// every field of a DIMACS problem (`details: Root(..)`) in canonical text form
+fn dump_root(p: &Problem) -> String {
+    let root = match &p.details {
+        ProblemDetails::Root(l) => fmt_lit(*l),
+        _ => return "NOT-ROOT".into(),
+    };
+    let mut gates = Vec::new();
+    for g in p.circuit.iter_gates() {
+        let ins: Vec<String> = g.inputs.iter().map(|&l| fmt_lit(l)).collect();
+        gates.push(format!("{}:{}", kind_letter(g.kind), ins.join("&")));
+    }
+    let vars = p.circuit.inputs();
+    format!(
+        "nv={} | gates {} | root {} | names={} order={}",
+        vars.len(),
+        gates.join(" "),
+        root,
+        vars.has_names(),
+        vars.order().map(|o| o.len()).unwrap_or(0)
+    )
+}
+
+fn dimacs_result(mask: u64, data: &[u8]) -> String {
+    let o = opts(mask);
+    let r = std::panic::catch_unwind(std::panic::AssertUnwindSafe(|| match parse_direct("dimacs", &o, data) {
+        Some(p) => {
+            post_ok(&p);
+            format!("OK {}", dump_root(&p))
+        }
+        None => "DIAG".into(),
+    }));
+    match r {
+        Ok(s) => s,
+        Err(e) => format!("PANIC {}", panic_msg(e)),
+    }
+}
+
+/// `M <opts> <family> <hex seed> <rseed>`
+fn run_dimacs_mut(line: &str, out: &mut dyn FnMut(String)) {
+    let t: Vec<&str> = line.split_whitespace().collect();
+    let (mask, family, seed) = (t[1].parse::<u64>().unwrap(), t[2], unhex(t[3]));
+    let rseed: u64 = t.get(4).and_then(|x| x.parse().ok()).unwrap_or(1);
+    let (mut n, mut skipped) = (0u64, 0u64);
+    let mut seen = std::collections::HashSet::new();
+    mutations(family, &seed, rseed, &mut |data: &[u8]| {
+        if has_digit_run(data, 6) {
+            skipped += 1;
+            return;
+        }
+        if !seen.insert(data.to_vec()) {
+            return;
+        }
+        n += 1;
+        out(format!("N {mask} {} -> {}", hex(data), dimacs_result(mask, data)));
+    });
+    out(format!("{line} -> n={n} skipped={skipped}"));
+}
+
 // ---------------------------------------------------------------------------
 // generators
 // ---------------------------------------------------------------------------
@@ -1167,6 +1228,21 @@ fn gen_aiger_mut(tier: &str, rng: &mut Rng, em: &mut Emit) {
     }
 }
 
+/// C18p: mutations of the DIMACS seeds (options without variable order / clause tree), every
+/// mutated input compared with the model of the CNF reader
+fn gen_dimacs_mut(tier: &str, rng: &mut Rng, em: &mut Emit) {
+    let thorough = tier == "thorough";
+    for s in dimacs_seeds() {
+        for family in ["trunc", "subst", "delins", if thorough { "multi20000" } else { "multi1200" }] {
+            let mask = if rng.chance(1, 2) { 4 } else { 0 };
+            em.case("cnfmut", &[format!("M {mask} {family} {} {}", hex(s), rng.below(1 << 30))]);
+        }
+        if thorough {
+            em.case("cnfmut", &[format!("M 4 substall {} 1", hex(s))]);
+        }
+    }
+}
+
 fn main() {
     let args: Vec<String> = std::env::args().collect();
     match mode().as_str() {
@@ -1190,6 +1266,7 @@ fn main() {
             let mut em = Emit { id: 0, shard, nshards, prefix: "m".into() };
             if what == "aiger" {
                 gen_aiger_mut(&tier, &mut rng, &mut em);
+                gen_dimacs_mut(&tier, &mut rng, &mut em);
             }
         }
         _ => {
@@ -1226,6 +1303,12 @@ fn main() {
                             out(format!("{line} -> {r}"));
                         }
                         "D" => run_aiger_mut(line, out),
+                        "N" => {
+                            let t: Vec<&str> = line.split_whitespace().collect();
+                            let r = dimacs_result(t[1].parse::<u64>().unwrap(), &unhex(t[2]));
+                            out(format!("{line} -> {r}"));
+                        }
+                        "M" => run_dimacs_mut(line, out),
                         _ => panic!("unknown op line {line}"),
                     }
                 }
